@@ -4,19 +4,39 @@ From Coq Require Import List NArith ZArith Bool Arith Lia.
 From Muscle Require Import Gen.Consts Refl.Base Refl.BaseProofs Refl.Tree Refl.TreeProofs Refl.Matcher Refl.MatcherProofs
      Refl.Traverse Refl.TraverseFold Refl.TraverseSpec Refl.Session Refl.Server Refl.ServerProofs Refl.Mirror Refl.MirrorBase
      Refl.MirrorServer Refl.MirrorNotify Refl.MirrorSem Refl.MirrorSteps Refl.MirrorHandlers Refl.MirrorSubscribe Refl.MirrorFetch
-     Refl.MirrorSubJ.
+     Refl.MirrorSubJ Refl.MirrorFrame Refl.MirrorGet.
 Import ListNotations.
 
 Section Cmd.
 Context {M : MatchOps} {L : MatchLaws M}.
 
 (* no quiet flag anywhere in the command *)
+(* what may be quiet: nothing that changes the tree, and not the observer's own SUBSCRIBE: (it would miss the initial
+   values); another session's quiet subscription is nobody else's business.  [own] = the sender is the observer *)
+Fixpoint cmd_loud_for (own : bool) (c : cmd) : bool :=
+  match c with
+  | CSetData flags _ => negb (flag_set flags c_SETDATANODE_FLAG_QUIET)
+  | CRemoveData q _ => negb q
+  | CSubscribe q _ => negb q || negb own
+  | CBatch l => forallb (cmd_loud_for own) l
+  | _ => true
+  end.
+
+(* everything loud (the strongest form; implies cmd_loud_for) *)
 Fixpoint cmd_loud (c : cmd) : bool :=
   match c with
   | CSetData flags _ => negb (flag_set flags c_SETDATANODE_FLAG_QUIET)
   | CRemoveData q _ => negb q
   | CSubscribe q _ => negb q
   | CBatch l => forallb cmd_loud l
+  | _ => true
+  end.
+
+(* no unsubscribe anywhere in the command *)
+Fixpoint cmd_nounsub (c : cmd) : bool :=
+  match c with
+  | CUnsubscribe _ => false
+  | CBatch l => forallb cmd_nounsub l
   | _ => true
   end.
 
@@ -29,6 +49,18 @@ Fixpoint cmd_plain (c : cmd) : bool :=
   | _ => true
   end.
 
+(* the keys of every explicit GETDATA in the command are subscriptions the sender holds at that moment (same path, same
+   filter; distinct non-empty paths): [m] is its subscription table when the command starts, threaded through a BATCH *)
+Fixpoint cmd_covered (m : matcher) (c : cmd) : Prop :=
+  match c with
+  | CGetData keys =>
+    NoDup (fixed keys) /\ (forall p, In p (fixed keys) -> p <> []) /\
+    forall kf, In kf keys -> In (mkEntry (fix_path (fst kf)) (snd kf)) (all_entries m)
+  | CBatch l =>
+    (fix all (l : list cmd) (m : matcher) : Prop :=
+       match l with [] => True | c' :: r => cmd_covered m c' /\ all r (fst (client_cmd m c')) end) l m
+  | _ => True
+  end.
 
 (* the SUBSCRIBE: fields of one Message have distinct, non-empty paths (they are field names of one Message) *)
 Fixpoint cmd_subs_ok (c : cmd) : Prop :=
@@ -88,12 +120,37 @@ Proof. intros sv sv' H. apply same_sess_for. now apply same_core_sess. Qed.
 
 (* ------------------------------------------------------------------ one command *)
 
+Lemma loud_for_of_loud : forall c own, cmd_loud c = true -> cmd_loud_for own c = true.
+Proof.
+  induction c using cmd_ind'; intros own Hl; cbn [cmd_loud cmd_loud_for] in *; auto.
+  - now rewrite Hl.
+  - induction H as [|c l Hc Hl' IH]; [reflexivity|]. cbn [forallb] in *. apply andb_true_iff in Hl as [H1 H2].
+    rewrite (Hc own H1), (IH H2). reflexivity.
+Qed.
+
+Lemma covered_of_plain : forall c m, cmd_plain c = true -> cmd_covered m c.
+Proof.
+  induction c using cmd_ind'; intros m Hp; cbn [cmd_plain cmd_covered] in *; try exact I; try discriminate.
+  revert m. induction H as [|c l Hc Hl IH]; intros m; [exact I|]. cbn [forallb] in Hp. apply andb_true_iff in Hp as [H1 H2].
+  split; [now apply Hc|now apply IH].
+Qed.
+
+Lemma nounsub_of_plain : forall c, cmd_plain c = true -> cmd_nounsub c = true.
+Proof.
+  induction c using cmd_ind'; intros Hp; cbn [cmd_plain cmd_nounsub] in *; auto.
+  induction H as [|c l Hc Hl IH]; [reflexivity|]. cbn [forallb] in *. apply andb_true_iff in Hp as [H1 H2].
+  rewrite (Hc H1), (IH H2). reflexivity.
+Qed.
+
 Lemma handle_J : forall c nest sv b B, small (B + cmd_budget c) ->
-  cmd_loud c = true -> (b = o -> cmd_plain c = true /\ cmd_subs_ok c) ->
+  cmd_loud_for (N.eqb b o) c = true -> nest + cmd_depth c <= max_batch_nest ->
+  (b = o -> cmd_nounsub c = true /\ cmd_subs_ok c /\
+            forall ss, get_session sv o = Some ss -> s_pending ss = None /\ cmd_covered (s_subs ss) c) ->
   inv B sv -> pend_ok sv -> J sv o ->
   J (handle fx nest sv b c) o /\ pend_ok (handle fx nest sv b c).
 Proof.
-  induction c using cmd_ind'; intros nest sv b B HB Hloud Hown I Hpo HJ; cbn [handle cmd_budget cmd_loud cmd_plain cmd_subs_ok] in *;
+  induction c using cmd_ind'; intros nest sv b B HB Hloud Hdep Hown I Hpo HJ;
+    cbn [handle cmd_budget cmd_loud_for cmd_nounsub cmd_subs_ok cmd_covered] in *;
     destruct (get_session sv b) as [bs|] eqn:Hbs; try (split; assumption); try (rewrite Nat.add_0_r in HB).
   - (* SETDATA *)
     apply (set_data_items_J mir B i sv b f o); auto. now apply negb_true_iff in Hloud.
@@ -102,11 +159,12 @@ Proof.
     apply (do_remove_data_J fx mir B [] sv bs k o); auto.
     pose proof (find_session_some _ _ _ Hbs) as [_ Hid]. rewrite Hid. exact Hbs.
   - (* SETPARAMETERS with SUBSCRIBE: fields *)
-    apply negb_true_iff in Hloud. subst q.
     destruct (N.eq_dec b o) as [E|E].
-    + subst b. destruct (Hown eq_refl) as [_ [Hnd Hne]].
+    + subst b. rewrite N.eqb_refl, orb_false_r in Hloud. apply negb_true_iff in Hloud. subst q.
+      destruct (Hown eq_refl) as [_ [[Hnd Hne] _]].
       apply (subscribe_cmd_J fx guard_on overlap_on push_on mir o B sv k); eauto.
     + destruct (subscribe_fold_other k B sv b E HB I Hpo) as [H1 [H2 [H3 [H4 H5]]]].
+      destruct q; [split; [|exact H4]; apply (J_frame_local mir sv); auto|].
       destruct k as [|sf0 k0] eqn:Ek.
       * split; [|exact H4]. apply (J_frame_local mir sv); auto.
       * rewrite <- Ek in *.
@@ -132,31 +190,53 @@ Proof.
     apply (J_frame_local mir sv); auto.
     + apply same_for_core. apply upd_session_core. reflexivity.
     + intros q. apply V_upd_keep. intros x; auto.
-  - (* GETDATA (never the observer's) *)
-    destruct (N.eq_dec b o) as [E|E]; [destruct (Hown E) as [Hp _]; discriminate|].
+  - (* GETDATA *)
     split; [|now apply pend_ok_do_get_data].
-    apply (J_frame_local mir sv); auto.
-    + apply same_for_core, do_get_data_core.
-    + intros q. now apply do_get_data_other.
-    + intros q. destruct (do_get_data_core fx sv b k) as [Ht _]. now rewrite Ht.
+    destruct (N.eq_dec b o) as [E|E].
+    + (* the observer's own: its keys are subscriptions it holds *)
+      subst b. destruct (Hown eq_refl) as [_ [_ Hc]]. destruct (Hc bs Hbs) as [Hnp [Hnd [Hne Hcov]]].
+      apply (getdata_covered_J fx guard_on mir o B sv bs k); auto.
+    + apply (J_frame_local mir sv); auto.
+      * apply same_for_core, do_get_data_core.
+      * intros q. now apply do_get_data_other.
+      * intros q. destruct (do_get_data_core fx sv b k) as [Ht _]. now rewrite Ht.
   - (* BATCH *)
-    destruct (Nat.ltb nest max_batch_nest); [|split; assumption].
-    clear Hbs bs. revert sv B HB Hloud Hown I Hpo HJ.
-    induction H as [|c l Hc Hl IHl]; intros sv B HB Hloud Hown I Hpo HJ; [split; assumption|].
+    cbn [cmd_depth] in Hdep.
+    assert (Hlt : Nat.ltb nest max_batch_nest = true) by (apply Nat.ltb_lt; lia). rewrite Hlt.
+    clear Hbs bs Hlt. revert sv B HB Hloud Hdep Hown I Hpo HJ.
+    induction H as [|c l Hc Hl IHl]; intros sv B HB Hloud Hdep Hown I Hpo HJ; [split; assumption|].
     cbn [forallb] in Hloud. apply andb_true_iff in Hloud as [Hl1 Hl2].
-    assert (Hown1 : b = o -> cmd_plain c = true /\ cmd_subs_ok c).
-    { intros E. destruct (Hown E) as [Hp [Hs _]]. cbn [forallb] in Hp. apply andb_true_iff in Hp as [Hp _]. auto. }
-    assert (Hown2 : b = o -> forallb cmd_plain l = true /\
-              (fix all (l : list cmd) : Prop := match l with [] => True | c' :: r => cmd_subs_ok c' /\ all r end) l).
-    { intros E. destruct (Hown E) as [Hp [_ Hs]]. cbn [forallb] in Hp. apply andb_true_iff in Hp as [_ Hp]. auto. }
+    assert (Hown1 : b = o -> cmd_nounsub c = true /\ cmd_subs_ok c /\
+              forall ss, get_session sv o = Some ss -> s_pending ss = None /\ cmd_covered (s_subs ss) c).
+    { intros E. destruct (Hown E) as [Hp [[Hs _] Hcv]]. cbn [forallb] in Hp. apply andb_true_iff in Hp as [Hp _].
+      split; [auto|split; [auto|]]. intros ss Hss. destruct (Hcv ss Hss) as [Hn [Hc1 _]]. auto. }
     match type of HB with small (B + (cmd_budget c + ?X)) => set (rest := X) in * end.
     destruct (Hc (S nest) sv b B) as [HJ1 Hpo1]; auto.
     { eapply small_le; [|exact HB]. lia. }
-    assert (I1 : inv (B + cmd_budget c) (push_all (handle fx (S nest) sv b c))).
+    { lia. }
+    set (sv1 := push_all (handle fx (S nest) sv b c)).
+    assert (I1 : inv (B + cmd_budget c) sv1).
     { eapply inv_same_core; [apply push_all_core|]. apply handle_inv; auto. eapply small_le; [|exact HB]. lia. }
-    apply (IHl (push_all (handle fx (S nest) sv b c)) (B + cmd_budget c)); auto.
+    assert (Hpo2 : pend_ok sv1) by (now apply pend_ok_push_all).
+    apply (IHl sv1 (B + cmd_budget c)); auto.
     + now rewrite <- Nat.add_assoc.
-    + now apply pend_ok_push_all.
+    + lia.
+    + intros E. destruct (Hown E) as [Hp [[_ Hs] Hcv]]. cbn [forallb] in Hp. apply andb_true_iff in Hp as [_ Hp].
+      split; [auto|split; [auto|]]. intros ss1 Hss1.
+      split; [apply (push_all_no_pending (handle fx (S nest) sv b c) Hpo1); apply find_session_some in Hss1; tauto|].
+      subst b.
+      destruct (get_session sv o) as [ss|] eqn:Hss.
+      * destruct (Hcv ss eq_refl) as [_ [_ Hrest]].
+        destruct (handle_track fx c (S nest) sv o Hpo) as [_ Htr]; [lia|].
+        destruct (Htr o ss Hss) as [ss' [Hss' [_ Hsub']]]. rewrite N.eqb_refl in Hsub'.
+        destruct (get_session_core_some _ sv1 o ss' (push_all_core _) Hss') as [ss1' [Hss1' Hsub1]].
+        assert (ss1' = ss1) by (unfold sv1 in *; congruence). subst ss1'.
+        rewrite Hsub1, Hsub'. exact Hrest.
+      * exfalso.
+        assert (Hh : handle fx (S nest) sv o c = sv) by (destruct c; cbn [handle]; rewrite Hss; reflexivity).
+        assert (Hcs : same_sess sv sv1) by (unfold sv1; rewrite Hh; apply same_core_sess, push_all_core).
+        destruct (get_session_sess sv sv1 o ss1 Hcs Hss1) as [x [Hx _]].
+        congruence.
     + now apply J_push_all.
 Qed.
 
